@@ -1092,6 +1092,10 @@ pub fn run(ctx: &mut Ctx) {
                         (Op::Df { h }, _) | (Op::Dg { h }, _) | (Op::Dm { h }, _) => w.handles[*h].cur = None,
                         (Op::L2i { h, uid }, Ret::Bool(true)) => {
                             w.handles[*h].cur = Some(*uid);
+                            if w.subtyped.iter().any(|(_, y)| y == h) {
+                                // (the import was declared with the function's own, non-final type)
+                                w.subtyped.push((*uid, *h));
+                            }
                             import_ids.insert(*h, imports_len);
                             imports_len += 1;
                         }
@@ -1776,7 +1780,11 @@ fn apply<'a>(m: &mut Module<'a>, op: &Op, w: &World) -> Ret {
             m.delete_func(FunctionID(w.handles[*h].id));
             Ret::Unit
         }
-        Op::L2i { h, uid } => Ret::Bool(m.convert_local_fn_to_import(FunctionID(w.handles[*h].id), "env".to_string(), format!("f{uid}"), TypeID(0))),
+        Op::L2i { h, uid } => {
+            // a function that stands for an import of the non-final type keeps that type as an import (a typed global may hold it)
+            let ty = if w.subtyped.iter().any(|(_, y)| y == h) { 2 } else { 0 };
+            Ret::Bool(m.convert_local_fn_to_import(FunctionID(w.handles[*h].id), "env".to_string(), format!("f{uid}"), TypeID(ty)))
+        }
         Op::Ri { imp_id, uid, sites, .. } => {
             let mut fb = FunctionBuilder::new(&[], &[]);
             build_body(&mut fb, *uid, sites, w);
